@@ -198,6 +198,16 @@ def pairs(ck, em, rng, count):
             if np.all(np.isfinite(np.asarray(k1.centroids_))):
                 fact("KMeans.centroids", rel((np.asarray(k2.centroids_) - tv) / s @ Q.T, k1.centroids_, 1e-6))
                 fact("KMeans.criterion", rel([k2.average_min_distance / s ** 2], [k1.average_min_distance], 1e-6))
+            # a cluster that captures nothing (its initial centroid is far from every sample), with as many clusters as
+            # features: the centroids still follow the rotation / scaling / translation
+            if D >= 2:
+                far = np.vstack([X[r.choice(n, size=D - 1, replace=False)] + 0.01, X.mean(axis=0) + 60.0 + r.normal(size=D)])
+                far = far[r.permutation(D)]
+                e1 = em.KMeansMachine(D, init_method=far.copy(), max_iter=3, convergence_threshold=None).fit(X)
+                e2 = em.KMeansMachine(D, init_method=(far @ Q) * s + tv, max_iter=3, convergence_threshold=None).fit((X @ Q) * s + tv)
+                if np.all(np.isfinite(np.asarray(e1.centroids_))):
+                    fact("KMeans.centroids.empty_cluster", rel((np.asarray(e2.centroids_) - tv) / s @ Q.T, e1.centroids_, 1e-6),
+                         "K = D = %d, one initial centroid far from the data" % D)
             # trained to convergence (the stopping rule is relative, so the units must not matter)
             s3 = float(10.0 ** r.uniform(-4.5, 3))
             k3 = em.KMeansMachine(K, init_method=init.copy(), max_iter=200, convergence_threshold=1e-5).fit(X)
